@@ -279,6 +279,7 @@ let run (op : string) (a : string array) : string =
       Buffer.add_string b (" NOWRITE " ^ if no_write tr then "1" else "0");
       Buffer.contents b
   (* ---- decidable classes: the SAME predicates the Coq theorems use ---- *)
+  | "gen_same_types" -> show_bool (same_types (parse_shape a.(1)) (parse_shape a.(2)))
   | "gen_good" -> show_bool (good_names (parse_shape a.(1)))
   | "gen_decodable" -> show_bool (decodable (parse_shape a.(1)))
   | "gen_serde_ok" -> show_bool (serde_ok (parse_shape a.(1)))
